@@ -224,3 +224,92 @@ func c12R12As(c *Ctx, r string) {
 		}
 	}
 }
+
+// c05R12: the dichotomic search in Batch.SetRecords (findTo) is only correct for a predicate that is monotone over the
+// range: true up to some index, false after it. The contiguity predicate is anchored at the chunk start — it relates
+// activeIndices[idx] and idx to the fixed start. A neighbour-relative test (activeIndices[idx] vs activeIndices[idx-1])
+// is local: it is true again behind a gap, so the bisection can pick a chunk that spans a filtered record and the
+// records behind it land one slot off (seeded C05-m3). The structural clause: the function literal handed to findTo
+// indexes slices only with its own parameter, never with parameter±k.
+func c05R12(c *Ctx) {
+	r := c.R.Rule("R12", "K6 the predicate of the dichotomic search is anchored, not neighbour-relative: every function literal handed to Batch.findTo indexes only with its own index parameter (an element at parameter±k makes the predicate local, and bisection needs it monotone over the range)", 1)
+	findTo := c.Fn(r, pFunnel, "(*Batch).findTo")
+	if findTo == nil {
+		return
+	}
+	n := 0
+	fp := c.W.Pkg(pFunnel)
+	if fp == nil || c.W.SSA[fp.Types] == nil {
+		c.R.Unresolved(r, pFunnel)
+		return
+	}
+	for _, fn := range c.W.AllFuncs(c.W.SSA[fp.Types]) {
+		for _, call := range kit.CallsTo(fn, Set(findTo)) {
+			for _, a := range call.Common().Args {
+				mc, ok := a.(*ssa.MakeClosure)
+				if !ok {
+					continue
+				}
+				lit, ok := mc.Fn.(*ssa.Function)
+				if !ok || len(lit.Params) != 1 {
+					continue
+				}
+				param := lit.Params[0]
+				var rel func(v ssa.Value, d int) int // 0 unrelated, 1 the parameter itself, 2 computed from it
+				rel = func(v ssa.Value, d int) int {
+					if v == nil || d > 8 {
+						return 0
+					}
+					if v == ssa.Value(param) {
+						return 1
+					}
+					switch x := v.(type) {
+					case *ssa.Convert:
+						return rel(x.X, d+1)
+					case *ssa.ChangeType:
+						return rel(x.X, d+1)
+					case *ssa.BinOp:
+						if rel(x.X, d+1) > 0 || rel(x.Y, d+1) > 0 {
+							return 2
+						}
+					case *ssa.UnOp:
+						if rel(x.X, d+1) > 0 {
+							return 2
+						}
+					case *ssa.Phi:
+						for _, e := range x.Edges {
+							if rel(e, d+1) > 0 {
+								return 2
+							}
+						}
+					}
+					return 0
+				}
+				for _, b := range lit.Blocks {
+					for _, in := range b.Instrs {
+						var idx ssa.Value
+						switch x := in.(type) {
+						case *ssa.IndexAddr:
+							idx = x.Index
+						case *ssa.Index:
+							idx = x.Index
+						case *ssa.Lookup:
+							idx = x.Index
+						default:
+							continue
+						}
+						k := rel(idx, 0)
+						if k == 0 {
+							continue
+						}
+						n++
+						c.R.Check(k == 1, r, kit.FuncKey(fn)+": findTo predicate indexes with its own parameter", c.Pos(posOf(in)), "anchored", "the predicate handed to findTo reads an element at an index computed from its parameter (a neighbour, parameter±k): such a test is true again behind a gap, findTo's bisection requires a predicate that is monotone over the range — a chunk can span a filtered record and the records behind it are written one slot off", false)
+					}
+				}
+			}
+		}
+	}
+	if n == 0 {
+		c.R.Fail(r, "findTo predicates", c.Pos(findTo.Pos()), "no function literal handed to Batch.findTo indexes with its parameter (shape changed)")
+	}
+}
